@@ -1,52 +1,33 @@
 package main
 
 import (
-	"flag"
+	"encoding/json"
 	"fmt"
 	"os"
-	"runtime/pprof"
-	"time"
 
+	"verif/harness/check"
 	"verif/harness/core"
-	"verif/harness/gen"
 )
 
 func main() {
-	q := flag.String("q", "a", "query")
-	ds := flag.String("d", "D1", "dataset")
-	start := flag.Int64("start", 10000, "")
-	step := flag.Int64("step", 30000, "")
-	n := flag.Int("n", 11, "")
-	lb := flag.Int64("lb", 0, "")
-	qlb := flag.Int64("qlb", 0, "")
-	opt := flag.String("opt", "none", "")
-	procs := flag.Int("procs", 4, "")
-	bench := flag.Int("bench", 0, "")
-	flag.Parse()
-	w := core.Range(*start, *step, *n)
-	if *step == 0 {
-		w = core.Instant(*start)
-	}
-	cs := &core.Case{Q: *q, Data: gen.Dataset(*ds), W: w, O: core.Opts{Optimizers: *opt, LookbackMs: *lb, QLookbackMs: *qlb, Procs: *procs}}
+	b, _ := os.ReadFile(os.Args[1])
+	var f check.Failure
+	json.Unmarshal(b, &f)
+	cs := *f.Case
+	cs.NDist = 0
+	cs.Dist = nil
 	st, _ := core.BuildStore(cs.Data)
-	if *bench > 0 {
-		f, _ := os.Create("/tmp/cpu.prof")
-		pprof.StartCPUProfile(f)
-		t0 := time.Now()
-		for i := 0; i < *bench; i++ {
-			core.RunEngine(cs, st)
+	ref := core.RunRef(&cs, st)
+	bad := map[string]int{}
+	for i := 0; i < 2000; i++ {
+		out := core.RunEngine(&cs, st)
+		if s, d := core.Diff(ref, out.Res, false); s != "" {
+			bad["central:"+s+" "+d]++
 		}
-		t1 := time.Now()
-		for i := 0; i < *bench; i++ {
-			core.RunRef(cs, st)
+		out2 := core.RunEngine(f.Case, st)
+		if s, d := core.Diff(ref, out2.Res, false); s != "" {
+			bad["dist:"+s+" "+d]++
 		}
-		t2 := time.Now()
-		pprof.StopCPUProfile()
-		fmt.Printf("engine %.0fus/op  ref %.0fus/op\n", float64(t1.Sub(t0).Microseconds())/float64(*bench), float64(t2.Sub(t1).Microseconds())/float64(*bench))
-		return
 	}
-	out := core.RunEngine(cs, st)
-	ref := core.RunRef(cs, st)
-	sym, det := core.Diff(ref, out.Res, false)
-	fmt.Printf("engine: %s\nref:    %s\nsym=%s det=%s\npanics=%v mon=%v wf=%v leaked=%d hang=%v\n", out.Res, ref, sym, det, out.Panics, out.Mon, out.WF, out.Leaked, out.Hang)
+	fmt.Println(bad)
 }
